@@ -159,6 +159,24 @@ func (r *Rec) Violate(sig, detail string) {
 	}
 }
 
+// ViolateWith reports a violation whose replayable case is c (e.g. the
+// event path inside a state-graph search) instead of the current case.
+func (r *Rec) ViolateWith(sig, detail string, c interface{}) {
+	r.curViol++
+	v := r.Violations[sig]
+	if v == nil {
+		v = &ViolationRec{Signature: sig, Detail: detail}
+		r.Violations[sig] = v
+	}
+	v.Count++
+	if len(v.Examples) < 3 {
+		b, err := json.Marshal(c)
+		if err == nil {
+			v.Examples = append(v.Examples, b)
+		}
+	}
+}
+
 // Violatef is Violate with a formatted detail.
 func (r *Rec) Violatef(sig, format string, a ...interface{}) { r.Violate(sig, fmt.Sprintf(format, a...)) }
 
